@@ -560,6 +560,35 @@ func run(ctx *core.Ctx) error {
 		recs = append(recs, evs...)
 	}
 
+	// length sweep: one long stream per document on a non-seekable sink (the
+	// /Length is an indirect object written after the stream), every body
+	// length of a 1024-byte period, so that the stream's end falls on every
+	// position relative to the read buffers of the scan; only the crash
+	// points from the end of the stream object to the end of its length
+	// object (where the extent has to be recovered) and the whole file
+	sweepN := ctx.Pick(1030, 2060)
+	for k := 0; k < sweepN; k++ {
+		sp := docSpec{ctx.Seed*1000 + 500 + int64(k%7), shared.DocOptions{Version: []pdf.Version{pdf.V1_4, pdf.V1_7}[k%2], Seekable: false, Objects: 3, MinStreams: 1,
+			Bodies: []shared.BodyKind{shared.BodyBig}, BigSize: 1030 + k}, fmt.Sprintf("sweep-%d", 1030+k)}
+		doc, err := shared.GenerateDoc(sp.Seed, sp.Opt)
+		if err != nil {
+			return core.Infra("generate %s: %v", sp.Name, err)
+		}
+		t, err := buildTruth(doc, doc.Bytes, false)
+		if err != nil {
+			return err
+		}
+		di := len(truths)
+		truths = append(truths, t)
+		specs = append(specs, sp)
+		evs := enumerateWindow(ctx, t, st)
+		for i := range evs {
+			evs[i].D = di + 1
+		}
+		recs = append(recs, evs...)
+	}
+	ctx.Logf("length sweep: %d documents with one stream of 1030..%d bytes, crash points between the stream and the end of its length object", sweepN, 1029+sweepN)
+
 	if err := judgeAndReport(ctx, recs, truths, specs, rules); err != nil {
 		return err
 	}
@@ -663,6 +692,69 @@ func enumerate(ctx *core.Ctx, t *truth, cases, rules map[string]tableRow, st *ru
 	if len(evs) > 2 {
 		ctx.Ev.Sample(map[string]any{"kind": "observation of the real scan at one crash point (judged by Trace_SeqScan)", "file_bytes": n,
 			"objects": len(t.objs), "event": evs[len(evs)/2]})
+	}
+	return evs
+}
+
+// enumerateWindow observes, for every stream object, the crash points from
+// its end to the end of the object that follows (its indirect /Length), and
+// the whole file.
+func enumerateWindow(ctx *core.Ctx, t *truth, st *runStats) []event {
+	n := len(t.data)
+	cuts := map[int]bool{n: true}
+	for _, o := range t.objs {
+		if o.Kind != "stream" {
+			continue
+		}
+		// the object that follows the stream in the file
+		hi := int(o.End) + 40
+		var next *truthObj
+		for k := range t.objs {
+			q := &t.objs[k]
+			if q.Start >= o.End && (next == nil || q.Start < next.Start) {
+				next = q
+			}
+		}
+		if next != nil {
+			hi = int(next.End) + 2
+		}
+		for c := int(o.End) - 2; c <= hi && c <= n; c++ {
+			if c >= 0 {
+				cuts[c] = true
+			}
+		}
+	}
+	var list []int
+	for c := range cuts {
+		list = append(list, c)
+	}
+	sort.Ints(list)
+	obs := make([]observation, len(list))
+	var wg sync.WaitGroup
+	sem := make(chan struct{}, 16)
+	for k, c := range list {
+		wg.Add(1)
+		sem <- struct{}{}
+		go func(k, c int) {
+			defer wg.Done()
+			defer func() { <-sem }()
+			obs[k] = observe(t, t.data[:c])
+		}(k, c)
+	}
+	wg.Wait()
+	ctx.Ev.Eval(len(list))
+	var evs []event
+	st.mu.Lock()
+	defer st.mu.Unlock()
+	for k, c := range list {
+		cut := int64(c)
+		ob := &obs[k]
+		class, kind := cutClass(t, cut)
+		st.cuts++
+		if kind != "-" {
+			st.inObject++
+		}
+		evs = append(evs, event{Lo: cut, Hi: cut, Whole: c == n, Res: ob.Res, MR: ob.MR, Per: ob.Per, Class: class, Kind: kind, Note: ob.Note, Tag: ob.Tag, Extra: ob.Extra})
 	}
 	return evs
 }
